@@ -605,6 +605,42 @@ func runC03Detectors(c *Ctx) {
 				}
 			}
 		}
+		// a detector that rejects from inside a loop (a mismatch between neighbours, a foreign suit)
+		// accepts only after that loop has run to its end: no "return true" on a path that goes round it
+		{
+			s := newSumm(p, 0)
+			s.EngineAliases = false
+			s.HelperInline = purePredicate(p, fn)
+			paths, _ := s.Function(fn)
+			var rejecting []*Loop
+			for _, l := range s.loops(fn) {
+				body, _ := s.LoopBody(fn, l)
+				for _, bp := range body {
+					if strings.HasPrefix(bp.End, "exit-return") && len(bp.Ret) == 1 && bp.Ret[0].String() == "false" {
+						rejecting = append(rejecting, l)
+						break
+					}
+				}
+			}
+			if len(rejecting) > 0 {
+				for _, ps := range paths {
+					if ps.End != "return" || len(ps.Ret) != 1 || ps.Ret[0].String() != "true" {
+						continue
+					}
+					for _, l := range rejecting {
+						through := false
+						for _, e := range ps.Events {
+							if e.Kind == "loop" && e.Loop == l {
+								through = true
+							}
+						}
+						if !through {
+							bad = append(bad, "the pattern is accepted on a path that does not run the comparing loop: ["+ps.CondString()+"]")
+						}
+					}
+				}
+			}
+		}
 		c.check(len(bad) == 0, "detectors-scan-all", fnKey(fn), p.FnPos(fn), "looks at its whole input", "a pattern detector ignores part of the hand", uniq(bad, 2)...)
 	}
 	c.floor("detectors-scan-all", "pattern detectors", n, 7)
